@@ -23,6 +23,7 @@ type Reader struct {
 	curr []byte
 	buf  []byte
 	id   ID
+	full bool // set when the largest possible id has been used: no id is left
 	rerr error
 }
 
@@ -143,7 +144,7 @@ func (r *Reader) ReadPacketUsing(buf []byte) (pkt Packet, err error) {
 		pkt.Control = pkt.Control || fr.Control
 
 		switch {
-		case fr.ID.Less(r.id):
+		case r.full || fr.ID.Less(r.id):
 			return Packet{}, drpc.ProtocolError.New("id monotonicity violation (fr:%v r:%v)", fr.ID, r.id)
 
 		case r.id != fr.ID || pkt.ID == ID{}:
@@ -175,6 +176,7 @@ func (r *Reader) ReadPacketUsing(buf []byte) (pkt Packet, err error) {
 				// stream may follow, do not wrap around to accepting
 				// every id of this one again.
 				r.id.Stream++
+				r.full = r.id.Stream == 0
 			}
 			return pkt, nil
 		}
